@@ -23,6 +23,7 @@ def run():
         res.add_tlc("Eval: machine = Den, all programs <= 5 leaves (spec level only)", t5)
     E.trace_validation(res, work, n_random=4000 if thorough else 600)
     E.unit_test_suite_traces(res, work, "rc")
+    E.replay_simulated("C04", res, work, 4000 if thorough else 400)
     res.coverage["exhaustive"] = True
     res.coverage["rule"] = (f"every postfix program of Eval.tla with <= {n} leaves (2 RC keys, hint keys, 2 FC keys, juxtaposition with a "
                             "single FC key) under every assignment in {F,U,K}^2 is one case; non-trivial = at least one composition; "
